@@ -200,7 +200,12 @@ func (d simDialer) Dial(network, address string) (net.Conn, error) {
 
 func (t *SimTransport) CreateDialer(d *net.Dialer) transport.Dialer { return simDialer{t, d} }
 
-type simListenConfig struct{ t *SimTransport }
+// simListenConfig: a net.ListenConfig with a Control function is taken for what the bundled
+// generators pass there - reuseport.Control, i.e. SO_REUSEADDR + SO_REUSEPORT.
+type simListenConfig struct {
+	t     *SimTransport
+	reuse bool
+}
 
 func (l simListenConfig) Listen(ctx context.Context, network, address string) (net.Listener, error) {
 	if !strings.HasPrefix(network, "tcp") {
@@ -210,7 +215,7 @@ func (l simListenConfig) Listen(ctx context.Context, network, address string) (n
 	if err != nil {
 		return nil, err
 	}
-	ln, err := l.t.N.ListenTCP(l.t.Role, l.t.Owner, ip, port)
+	ln, err := l.t.N.ListenTCPReuse(l.t.Role, l.t.Owner, ip, port, l.reuse)
 	if err != nil {
 		return nil, err
 	}
@@ -221,8 +226,8 @@ func (l simListenConfig) ListenPacket(ctx context.Context, network, address stri
 	return l.t.ListenPacket(network, address)
 }
 
-func (t *SimTransport) CreateListenConfig(*net.ListenConfig) transport.ListenConfig {
-	return simListenConfig{t}
+func (t *SimTransport) CreateListenConfig(lc *net.ListenConfig) transport.ListenConfig {
+	return simListenConfig{t, lc != nil && lc.Control != nil}
 }
 
 // ---- shims giving simnet objects pion/transport's wider method sets
